@@ -111,7 +111,7 @@ fn big_value(x: f64, y: f64) -> f64 {
 fn work(round_seed: u64, shared_f: &[Arc<FlatEx<f64>>], shared_d: &[Arc<DeepEx<'static, f64>>]) -> Vec<String> {
     let mut out = vec![];
     let mut r = Rng::new(round_seed);
-    for _ in 0..40 {
+    for round in 0..40 {
         let t = TEXTS[r.below(TEXTS.len())];
         match FlatEx::<f64>::parse(t) {
             Ok(e) => {
@@ -140,7 +140,8 @@ fn work(round_seed: u64, shared_f: &[Arc<FlatEx<f64>>], shared_d: &[Arc<DeepEx<'
             Err(_) => out.push("E".into()),
         }
         // repeated evaluation of one large expression on the same thread (evaluation history)
-        if out.len() % 50 < 6 {
+        // (twice in a row, then a pause: the second evaluation meets whatever the first left behind)
+        if round % 5 < 2 {
             BIG.with(|b| {
                 let (x, y) = (1.0 + r.below(5) as f64, 0.5 + r.below(3) as f64);
                 let got = b.eval(&[x, y]).map(|v| v.to_bits()).ok();
